@@ -299,6 +299,12 @@ impl Prop for C08 {
         }
         Ok(())
     }
+    fn post(&self, tier: Tier, seed: u64) -> (serde_json::Value, Option<(Case, Failure)>) {
+        if tier != Tier::Thorough {
+            return (json!({"fuzz": "not part of the quick tier"}), None);
+        }
+        crate::fuzzrun::campaign("c08_policy", seed, 150_000, 96, crate::decode::c08_case, fuzz_check)
+    }
     fn rule(&self) -> String {
         "generated (site |lat|<=70 with half the mass in 45-70, GMT within 2 h, 8 named methods x 14 policies, substitute latitude in [-66,66], date mixture; interval-consuming policies (half-of-night, minutes-from-maghrib 'invalid') only with angle-based methods, optionally with Fajr/Isha intervals in [1,120]). Each case is compared with the same call under no policy. One case in 16 is a nearest-latitude 'always' policy with the substitute latitude 3e-7..3e-5 deg from the site's own, further ones within 1e-8..1e-3 deg or exactly equal; one in 31 has the latitude bisected onto the polar-day limit; 3 in 40 sit on the polar-night edge with an interval-defined Fajr/Isha under an 'only if invalid' policy or angle-based; all four rounding modes; every case is preceded by a priming call with a sibling input. Non-trivial = a day on which some time is missing conventionally, or an 'always' policy; distinct by hash of the case".into()
     }
@@ -309,4 +315,9 @@ impl Prop for C08 {
             "clause (c) is asserted for all seven entries; for Imsaak not under the policies that consume the intervals".into(),
         ]
     }
+}
+
+/// entry point of the libFuzzer target `c08_policy` (and of the re-check of its artifacts)
+pub fn fuzz_check(c: &Case, st: &mut Stats) -> Result<(), Failure> {
+    C08.check(c, st)
 }
